@@ -109,6 +109,15 @@ def random_case(rng, features=()):
                          L("code"), L("elif", expr=("eq", ("id", m), ("num", 3))), L("code"), L("else"), L("code"), L("endif")]
         files[rel] = body
         srcs.append(rel)
+    if "mlcomment" in features:
+        # a block comment that starts after code, covers a whole line and ends before code: one logical line whose
+        # physical lines are not all counted (drawn from a side generator: the main stream is left as it was)
+        r2 = random.Random(rng.getstate()[1][0] ^ 0x6D6C63)
+        for rel in sorted(files):
+            if r2.random() < 0.5:
+                at = r2.randrange(len(files[rel]) + 1)
+                files[rel][at:at] = [L("mlc_open"), L("mlc_mid"), L("mlc_close")]
+    twinned = []
     if "dupes" in features:
         # byte-identical twins that are used differently (never compiled / never included)
         src = rng.choice(srcs)
@@ -116,6 +125,7 @@ def random_case(rng, features=()):
         hdrs = [k for k in files if k.endswith(".h")]
         h = rng.choice(hdrs)
         files["cb/src/sub/twin_" + os.path.basename(h)] = list(files[h])
+        twinned = [src, os.path.dirname(src) + "/dup_" + os.path.basename(src), h, "cb/src/sub/twin_" + os.path.basename(h)]
     if "zerosloc" in features:
         # code-base files without a single countable line (empty; comments and blank lines only): still members
         files["cb/src/empty.h"] = []
@@ -126,6 +136,11 @@ def random_case(rng, features=()):
     if "links" in features:
         tgt = rng.choice(srcs + [k for k in files if k.endswith(".h")])
         d = rng.choice(["cb/src", "cb/src/sub", "cb/inc"])
+        r2 = random.Random(rng.getstate()[1][0] ^ 0x74776E)
+        if twinned and r2.random() < 0.6:
+            tgt = r2.choice(twinned)        # a link to a file that has a byte-identical twin (the link is not a third copy)
+            if r2.random() < 0.7:
+                d = os.path.dirname(tgt)    # ... listed by the same directory as its target, before or after it
         links[d + "/link_" + os.path.basename(tgt)] = ("rel:" if rng.random() < 0.5 else "") + tgt
         if rng.random() < 0.5:
             links["cb/lnkdir"] = "cb/inc"
@@ -177,6 +192,19 @@ def random_case(rng, features=()):
         # the same files reached through a directory link with a different parent, and through ./.. segments
         files.setdefault("cb/src/sub/keep.h", [L("code")])
         links["cb/lnk_sub"] = "cb/src/sub"
+        r2 = random.Random(rng.getstate()[1][0] ^ 0x6F6E6365)
+        if r2.random() < 0.6:
+            # a #pragma once header included twice by one translation unit, the second time under the name of a link to
+            # it, with a macro the header tests defined in between: the second include must do nothing
+            files["cb/src/sub/once.h"] = [L("pragma_once"), L("ifdef", name="LATE"), L("code", text="int late;"), L("endif"), L("code")]
+            links["cb/inc/once_too.h"] = ("rel:" if r2.random() < 0.5 else "") + "cb/src/sub/once.h"
+            src = r2.choice(srcs)
+            files[src] += [L("include", name="once.h", angle=True), L("define", name="LATE", value=""),
+                           L("include", name="once_too.h", angle=True), L("code")]
+            for entries in platforms.values():
+                for e in entries:
+                    if e["file"] == src:
+                        e["include_paths"] += [x for x in ("cb/src/sub", "cb/inc") if x not in e["include_paths"]]
         for entries in platforms.values():
             for e in entries:
                 d, b = os.path.dirname(e["file"]), os.path.basename(e["file"])
